@@ -139,3 +139,165 @@ Proof.
   - intros l Hl. apply in_app_or in Hl. destruct Hl as [Hl|Hl]; apply copy_leaves_in in Hl;
       destruct Hl as (i & -> & Hi); eexists; eexists; (split; [reflexivity|lia]).
 Qed.
+
+(* ------------------------------------------------------------ ZFilter.__add__ *)
+Lemma fadd_world HT h (f g : tfilt) X r h' :
+  fnodup f -> fnodup g ->
+  dokx HT (t_num f) -> dokx HT (t_den f) -> dokx HT (t_num g) -> dokx HT (t_den g) ->
+  Wl HT h (dtops (t_num f) ++ dtops (t_den f) ++ dtops (t_num g) ++ dtops (t_den g) ++ X) ->
+  fadd coef_alg h f g = BOk r h' ->
+  exists HT', incl HT HT' /\ FW HT' h' r X.
+Proof.
+  intros [Nfn Nfd] [Ngn Ngd] Ofn Ofd Ogn Ogd Hw. unfold fadd.
+  destruct (peq coef_alg (t_den f) (t_den g)).
+  - (* equal denominators: the numerators are added *)
+    apply mk_world; [|apply padd_okx; assumption|exact Ofd].
+    apply (Wl_sub _ _ _ _ (dtops (t_den g)) Hw). rewrite (padd_tops _ _ Nfn Ngn). perm_solve.
+  - assert (Wl HT h (dtops (t_den g) ++ (dtops (t_num f) ++ dtops (t_den f) ++ dtops (t_num g) ++ X))) as W0
+      by (apply (Wl_perm _ _ _ _ Hw); perm_solve).
+    destruct (pcopy_world HT h _ _ W0 Ogd) as (HT1 & I1 & Ogd0 & Ogdc & W1).
+    destruct (pcopy coef_alg h (t_den g)) as [[gd0 gdc] h1]. cbn [fst snd] in *.
+    assert (Wl HT1 h1 (dtops (t_num f) ++ dtops gdc ++ (dtops gd0 ++ dtops (t_den f) ++ dtops (t_num g) ++ X))) as W1'
+      by (apply (Wl_perm _ _ _ _ W1); perm_solve).
+    destruct (pmul_world HT1 h1 _ _ _ W1' (dokx_mono _ _ _ I1 Ofn) Ogdc) as (HT2 & I2 & Op1 & W2).
+    pose proof (pmul_nodup coef_alg h1 (t_num f) gdc) as Np1.
+    destruct (pmul coef_alg h1 (t_num f) gdc) as [p1 h2]. cbn [fst snd] in *.
+    assert (incl HT HT2) as I02 by (intros x Hx; apply I2, I1; exact Hx).
+    assert (Wl HT2 h2 (dtops (t_den f) ++ (dtops p1 ++ dtops gd0 ++ dtops (t_num g) ++ X))) as W2'
+      by (apply (Wl_perm _ _ _ _ W2); perm_solve).
+    destruct (pcopy_world HT2 h2 _ _ W2' (dokx_mono _ _ _ I02 Ofd)) as (HT3 & I3 & Ofd0 & Ofdc & W3).
+    destruct (pcopy coef_alg h2 (t_den f)) as [[fd0 fdc] h3]. cbn [fst snd] in *.
+    assert (incl HT HT3) as I03 by (intros x Hx; apply I3, I02; exact Hx).
+    assert (Wl HT3 h3 (dtops (t_num g) ++ dtops fdc ++ (dtops p1 ++ dtops gd0 ++ dtops fd0 ++ X))) as W3'
+      by (apply (Wl_perm _ _ _ _ W3); perm_solve).
+    destruct (pmul_world HT3 h3 _ _ _ W3' (dokx_mono _ _ _ I03 Ogn) Ofdc) as (HT4 & I4 & Op2 & W4).
+    pose proof (pmul_nodup coef_alg h3 (t_num g) fdc) as Np2.
+    destruct (pmul coef_alg h3 (t_num g) fdc) as [p2 h4]. cbn [fst snd] in *.
+    assert (Wl HT4 h4 (dtops fd0 ++ dtops gd0 ++ (dtops p1 ++ dtops p2 ++ X))) as W4'
+      by (apply (Wl_perm _ _ _ _ W4); perm_solve).
+    assert (incl HT2 HT4) as I24 by (intros x Hx; apply I4, I3; exact Hx).
+    assert (incl HT1 HT4) as I14 by (intros x Hx; apply I24, I2; exact Hx).
+    destruct (pmul_world HT4 h4 _ _ _ W4' (dokx_mono _ _ _ I4 Ofd0) (dokx_mono _ _ _ I14 Ogd0)) as (HT5 & I5 & Odd & W5).
+    destruct (pmul coef_alg h4 fd0 gd0) as [dd h5]. cbn [fst snd] in *.
+    intro E.
+    assert (Wl HT5 h5 (dtops (padd coef_alg p1 p2) ++ dtops dd ++ X)) as W5'.
+    { apply (Wl_perm _ _ _ _ W5). rewrite (padd_tops _ _ Np1 Np2). perm_solve. }
+    assert (dokx HT5 (padd coef_alg p1 p2)) as Opa.
+    { apply padd_okx; [apply (dokx_mono HT2); [intros x Hx; apply I5, I24; exact Hx|exact Op1]|
+                       apply (dokx_mono HT4 _ _ I5 Op2)]. }
+    destruct (mk_world HT5 h5 _ _ X r h' W5' Opa Odd E) as (HT6 & I6 & HF).
+    exists HT6. split; [intros x Hx; apply I6, I5, I4, I03; exact Hx|exact HF].
+Qed.
+
+(* ------------------------------------------------ every expression *)
+Lemma build_world : forall e, fexp_simple e -> bases_ok e ->
+  forall HT h X f h', Wl HT h (esrcs e ++ X) -> build coef_alg e h = BOk f h' ->
+  exists HT', incl HT HT' /\ FW HT' h' f X.
+Proof.
+  induction e; intros Hs Hbo HT h X f h' Hw Hb; simpl in Hs, Hbo, Hw; cbn [build bbind] in Hb.
+  - (* FBase *)
+    rewrite <- app_assoc in Hw. apply (mk_world HT h num den X f h' Hw); [| |exact Hb];
+      apply simple_dokx; intros kv Hin; apply Hs; apply in_or_app; [left|right]; exact Hin.
+  - (* FAdd *)
+    destruct Hs as [S1 S2]. destruct Hbo as [B1 B2].
+    destruct (build coef_alg e1 h) as [f1 h1|] eqn:E1; [|discriminate]. cbn [bbind] in Hb.
+    destruct (build coef_alg e2 h1) as [f2 h2|] eqn:E2; [|discriminate]. cbn [bbind] in Hb.
+    rewrite <- app_assoc in Hw.
+    destruct (IHe1 S1 B1 HT h (esrcs e2 ++ X) f1 h1 Hw E1) as (HT1 & I1 & (O1n & O1d & W1)).
+    assert (Wl HT1 h1 (esrcs e2 ++ (dtops (t_num f1) ++ dtops (t_den f1) ++ X))) as W1' by (apply (Wl_perm _ _ _ _ W1); perm_solve).
+    destruct (IHe2 S2 B2 HT1 h1 _ f2 h2 W1' E2) as (HT2 & I2 & (O2n & O2d & W2)).
+    assert (Wl HT2 h2 (dtops (t_num f1) ++ dtops (t_den f1) ++ dtops (t_num f2) ++ dtops (t_den f2) ++ X)) as W2'
+      by (apply (Wl_perm _ _ _ _ W2); perm_solve).
+    destruct (fadd_world HT2 h2 f1 f2 X f h' (build_nodup coef_alg e1 h f1 h1 B1 E1) (build_nodup coef_alg e2 h1 f2 h2 B2 E2)
+                (dokx_mono _ _ _ I2 O1n) (dokx_mono _ _ _ I2 O1d) O2n O2d W2' Hb) as (HT3 & I3 & HF).
+    exists HT3. split; [intros x Hx; apply I3, I2, I1; exact Hx|exact HF].
+  - (* FSub *)
+    destruct Hs as [S1 S2]. destruct Hbo as [B1 B2].
+    destruct (build coef_alg e1 h) as [f1 h1|] eqn:E1; [|discriminate]. cbn [bbind] in Hb.
+    destruct (build coef_alg e2 h1) as [f2 h2|] eqn:E2; [|discriminate]. cbn [bbind] in Hb.
+    destruct (fneg coef_alg h2 f2) as [g h3|] eqn:E3; [|discriminate]. cbn [bbind] in Hb.
+    rewrite <- app_assoc in Hw.
+    destruct (IHe1 S1 B1 HT h (esrcs e2 ++ X) f1 h1 Hw E1) as (HT1 & I1 & (O1n & O1d & W1)).
+    assert (Wl HT1 h1 (esrcs e2 ++ (dtops (t_num f1) ++ dtops (t_den f1) ++ X))) as W1' by (apply (Wl_perm _ _ _ _ W1); perm_solve).
+    destruct (IHe2 S2 B2 HT1 h1 _ f2 h2 W1' E2) as (HT2 & I2 & HF2).
+    destruct (fneg_world HT2 h2 f2 _ g h3 HF2 E3) as (HT3 & I3 & (Ogn & Ogd & W3)).
+    assert (incl HT1 HT3) as I13 by (intros x Hx; apply I3, I2; exact Hx).
+    assert (Wl HT3 h3 (dtops (t_num f1) ++ dtops (t_den f1) ++ dtops (t_num g) ++ dtops (t_den g) ++ X)) as W3'
+      by (apply (Wl_perm _ _ _ _ W3); perm_solve).
+    destruct (fadd_world HT3 h3 f1 g X f h' (build_nodup coef_alg e1 h f1 h1 B1 E1)
+                (fneg_nodup coef_alg h2 f2 g h3 (build_nodup coef_alg e2 h1 f2 h2 B2 E2) E3)
+                (dokx_mono _ _ _ I13 O1n) (dokx_mono _ _ _ I13 O1d) Ogn Ogd W3' Hb) as (HT4 & I4 & HF).
+    exists HT4. split; [intros x Hx; apply I4, I13, I1; exact Hx|exact HF].
+  - (* FMul *)
+    destruct Hs as [S1 S2]. destruct Hbo as [B1 B2].
+    destruct (build coef_alg e1 h) as [f1 h1|] eqn:E1; [|discriminate]. cbn [bbind] in Hb.
+    destruct (build coef_alg e2 h1) as [f2 h2|] eqn:E2; [|discriminate]. cbn [bbind] in Hb.
+    rewrite <- app_assoc in Hw.
+    destruct (IHe1 S1 B1 HT h (esrcs e2 ++ X) f1 h1 Hw E1) as (HT1 & I1 & (O1n & O1d & W1)).
+    assert (Wl HT1 h1 (esrcs e2 ++ (dtops (t_num f1) ++ dtops (t_den f1) ++ X))) as W1' by (apply (Wl_perm _ _ _ _ W1); perm_solve).
+    destruct (IHe2 S2 B2 HT1 h1 _ f2 h2 W1' E2) as (HT2 & I2 & (O2n & O2d & W2)).
+    assert (Wl HT2 h2 (dtops (t_num f1) ++ dtops (t_den f1) ++ dtops (t_num f2) ++ dtops (t_den f2) ++ X)) as W2'
+      by (apply (Wl_perm _ _ _ _ W2); perm_solve).
+    destruct (fmul_world HT2 h2 f1 f2 X f h' (dokx_mono _ _ _ I2 O1n) (dokx_mono _ _ _ I2 O1d) O2n O2d W2' Hb) as (HT3 & I3 & HF).
+    exists HT3. split; [intros x Hx; apply I3, I2, I1; exact Hx|exact HF].
+  - (* FNeg *)
+    destruct (build coef_alg e h) as [f1 h1|] eqn:E1; [|discriminate]. cbn [bbind] in Hb.
+    destruct (IHe Hs Hbo HT h X f1 h1 Hw E1) as (HT1 & I1 & HF1).
+    destruct (fneg_world HT1 h1 f1 X f h' HF1 Hb) as (HT2 & I2 & HF).
+    exists HT2. split; [intros x Hx; apply I2, I1; exact Hx|exact HF].
+  - (* FMulR *)
+    destruct Hs as [S1 Sc].
+    destruct (build coef_alg e h) as [f1 h1|] eqn:E1; [|discriminate]. cbn [bbind] in Hb.
+    rewrite <- app_assoc in Hw.
+    destruct (IHe S1 Hbo HT h (ctops c ++ X) f1 h1 Hw E1) as (HT1 & I1 & (O1n & O1d & W1)).
+    destruct (fmul_scalar_world HT1 h1 f1 c X f h' O1n O1d (simple_cokx HT1 c Sc) W1 Hb) as (HT2 & I2 & HF).
+    exists HT2. split; [intros x Hx; apply I2, I1; exact Hx|exact HF].
+  - (* FMulL *)
+    destruct Hs as [S1 Sc].
+    destruct (build coef_alg e h) as [f1 h1|] eqn:E1; [|discriminate]. cbn [bbind] in Hb.
+    destruct (zf_scalar coef_alg h1 c) as [g h2|] eqn:E2; [|discriminate]. cbn [bbind] in Hb.
+    rewrite <- app_assoc in Hw.
+    destruct (IHe S1 Hbo HT h (ctops c ++ X) f1 h1 Hw E1) as (HT1 & I1 & (O1n & O1d & W1)).
+    assert (Wl HT1 h1 (ctops c ++ (dtops (t_num f1) ++ dtops (t_den f1) ++ X))) as W1' by (apply (Wl_perm _ _ _ _ W1); perm_solve).
+    destruct (zf_world HT1 h1 c _ g h2 (simple_cokx HT1 c Sc) W1' E2) as (HT2 & I2 & (Ogn & Ogd & W2)).
+    assert (Wl HT2 h2 (dtops (t_num g) ++ dtops (t_den g) ++ dtops (t_num f1) ++ dtops (t_den f1) ++ X)) as W2'
+      by (apply (Wl_perm _ _ _ _ W2); perm_solve).
+    destruct (fmul_world HT2 h2 g f1 X f h' Ogn Ogd (dokx_mono _ _ _ I2 O1n) (dokx_mono _ _ _ I2 O1d) W2' Hb) as (HT3 & I3 & HF).
+    exists HT3. split; [intros x Hx; apply I3, I2, I1; exact Hx|exact HF].
+  - (* FAddR *)
+    destruct Hs as [S1 Sc].
+    destruct (build coef_alg e h) as [f1 h1|] eqn:E1; [|discriminate]. cbn [bbind] in Hb.
+    destruct (zf_scalar coef_alg h1 c) as [g h2|] eqn:E2; [|discriminate]. cbn [bbind] in Hb.
+    rewrite <- app_assoc in Hw.
+    destruct (IHe S1 Hbo HT h (ctops c ++ X) f1 h1 Hw E1) as (HT1 & I1 & (O1n & O1d & W1)).
+    assert (Wl HT1 h1 (ctops c ++ (dtops (t_num f1) ++ dtops (t_den f1) ++ X))) as W1' by (apply (Wl_perm _ _ _ _ W1); perm_solve).
+    destruct (zf_world HT1 h1 c _ g h2 (simple_cokx HT1 c Sc) W1' E2) as (HT2 & I2 & (Ogn & Ogd & W2)).
+    assert (Wl HT2 h2 (dtops (t_num f1) ++ dtops (t_den f1) ++ dtops (t_num g) ++ dtops (t_den g) ++ X)) as W2'
+      by (apply (Wl_perm _ _ _ _ W2); perm_solve).
+    destruct (fadd_world HT2 h2 f1 g X f h' (build_nodup coef_alg e h f1 h1 Hbo E1) (zf_nodup coef_alg h1 c g h2 E2)
+                (dokx_mono _ _ _ I2 O1n) (dokx_mono _ _ _ I2 O1d) Ogn Ogd W2' Hb) as (HT3 & I3 & HF).
+    exists HT3. split; [intros x Hx; apply I3, I2, I1; exact Hx|exact HF].
+  - (* FAddL *)
+    destruct Hs as [S1 Sc].
+    destruct (build coef_alg e h) as [f1 h1|] eqn:E1; [|discriminate]. cbn [bbind] in Hb.
+    destruct (zf_scalar coef_alg h1 c) as [g h2|] eqn:E2; [|discriminate]. cbn [bbind] in Hb.
+    rewrite <- app_assoc in Hw.
+    destruct (IHe S1 Hbo HT h (ctops c ++ X) f1 h1 Hw E1) as (HT1 & I1 & (O1n & O1d & W1)).
+    assert (Wl HT1 h1 (ctops c ++ (dtops (t_num f1) ++ dtops (t_den f1) ++ X))) as W1' by (apply (Wl_perm _ _ _ _ W1); perm_solve).
+    destruct (zf_world HT1 h1 c _ g h2 (simple_cokx HT1 c Sc) W1' E2) as (HT2 & I2 & (Ogn & Ogd & W2)).
+    assert (Wl HT2 h2 (dtops (t_num g) ++ dtops (t_den g) ++ dtops (t_num f1) ++ dtops (t_den f1) ++ X)) as W2'
+      by (apply (Wl_perm _ _ _ _ W2); perm_solve).
+    destruct (fadd_world HT2 h2 g f1 X f h' (zf_nodup coef_alg h1 c g h2 E2) (build_nodup coef_alg e h f1 h1 Hbo E1)
+                Ogn Ogd (dokx_mono _ _ _ I2 O1n) (dokx_mono _ _ _ I2 O1d) W2' Hb) as (HT3 & I3 & HF).
+    exists HT3. split; [intros x Hx; apply I3, I2, I1; exact Hx|exact HF].
+  - (* FDivR *)
+    destruct Hs as [S1 Sc].
+    destruct (build coef_alg e h) as [f1 h1|] eqn:E1; [|discriminate]. cbn [bbind] in Hb.
+    destruct (ca_recip coef_alg c) as [r|] eqn:Er; [|discriminate].
+    destruct (recip_simple c r Sc Er) as [Et Eo].
+    rewrite <- app_assoc in Hw.
+    destruct (IHe S1 Hbo HT h (ctops c ++ X) f1 h1 Hw E1) as (HT1 & I1 & (O1n & O1d & W1)).
+    rewrite <- Et in W1.
+    destruct (fmul_scalar_world HT1 h1 f1 r X f h' O1n O1d (Eo HT1) W1 Hb) as (HT2 & I2 & HF).
+    exists HT2. split; [intros x Hx; apply I2, I1; exact Hx|exact HF].
+Qed.
